@@ -176,6 +176,10 @@ def run(chk):
             return "each key: the regular grid of its own range"
         chk.run("C15.R2", f"{MOD}:DataGeneratorParameter.generate_data", {"method": "grid", "n": m}, go_grid, construct="grid per key")
 
+    # a parameter mini-batch is a slice of the key's own sample table (so every entry is a value of that table / range)
+    from .C09 import check_param_draw
+    chk.run("C15.R2", f"{MOD}:DataGeneratorParameter.param_batch", {}, (lambda: check_param_draw(G)), construct="parameter batch = slice of the samples")
+
     # ---------------- R4 multi-network loader
     orders = [(('a', 'b'), ('a', 'b'), ('a', 'b')), (('a', 'b'), ('b', 'a'), ('a', 'b')), (('a', 'b'), ('a', 'b'), ('b', 'a')),
               (('b', 'a'), ('a', 'b'), ('b', 'a'))]
